@@ -1272,6 +1272,11 @@ def _mhist_oracle(a, ires):
             view = nview; continue
         if c in (M_SETTLV, M_SUBTYPE):
             last_pack = None
+            if not ok and st[1] == 1 and op[1] not in _c08.TLV_TYPES:
+                # a type code no TLV has (CfdpTlv.unpack refuses it): the unchanged library stores it and packs / refuses
+                # later; building such a TLV / assigning such a type may be refused with ValueError right away (the object
+                # is unchanged: checked above)
+                view = nview; continue
             if c == M_SETTLV and len(op) - 2 <= 255 and (not ok or nview[0][1] != op[1] or nview[1] != op[2:]):
                 return ("C18/%s.history/assignment-not-visible" % name, "%s: the object reads %s" % (where, nview))
             if c == M_SUBTYPE and (not ok or nview[0][1] != op[1]):
